@@ -952,6 +952,26 @@ func runDepSync(c *Ctx) {
 		} else {
 			s.Partition = iosJ(intstr.FromInt(s.Replicas + c.Rng.Intn(2)))
 		}
+		if i%2 == 1 && s.Replicas >= 2 {
+			// a small scale event is pending: every ReplicaSet still carries the desired-replicas annotation of the
+			// previous size (one off), so the next sync scales proportionally — and some ReplicaSet keeps its size
+			d := s.Replicas
+			for k := range s.Olds {
+				dd := d
+				s.Olds[k].Desired = &dd
+			}
+			if s.New != nil {
+				dd := d
+				s.New.Desired = &dd
+			}
+			// the scale event itself: the ReplicaSets (sizes and annotations) are those of the old size
+			s.Replicas = d + []int{-1, 1}[c.Rng.Intn(2)]
+			if c.Rng.Intn(2) == 0 {
+				s.Partition = iosJ(pct(100))
+			} else {
+				s.Partition = iosJ(intstr.FromInt(s.Replicas + c.Rng.Intn(2)))
+			}
+		}
 		c.dsConvergeCase(s, 8*(s.Replicas+4)+40)
 	}
 }
